@@ -13,8 +13,10 @@ import (
 	"fmt"
 	"go/ast"
 	"go/format"
+	"go/importer"
 	"go/parser"
 	"go/token"
+	"go/types"
 	"os"
 	"path/filepath"
 	"sort"
@@ -41,6 +43,7 @@ func main() {
 	repo := flag.String("repo", "/repo", "repository root")
 	out := flag.String("out", "", "output directory")
 	pkgs := flag.String("pkgs", "glow,server,client", "package directories")
+	flag.String("harness", "/verif/harness", "harness module root (for the shim packages)")
 	var extras multi
 	flag.Var(&extras, "add", "dir=pkgdir: add every .go file of dir to repo package pkgdir (overlay-only files)")
 	flag.Parse()
@@ -90,6 +93,38 @@ func main() {
 			}
 		}
 	}
+	// identifiers the shims lack become plain pass-throughs (compile, but not instrumented)
+	passthrough := map[string][]string{}
+	harness := flag.Lookup("harness").Value.String()
+	for std, names := range used {
+		r := rewrite[std]
+		shimDir := filepath.Join(harness, strings.TrimPrefix(r.path, "verifh/"))
+		have := exportedNames(shimDir)
+		var missing []string
+		for n := range names {
+			if !have[n] {
+				missing = append(missing, n)
+			}
+		}
+		if len(missing) == 0 {
+			continue
+		}
+		sort.Strings(missing)
+		src, ok := passthroughFile(filepath.Base(shimDir), std, missing)
+		if !ok {
+			continue
+		}
+		gen := filepath.Join(*out, "src", "shim", filepath.Base(shimDir)+"_zz_passthrough.go")
+		os.MkdirAll(filepath.Dir(gen), 0755)
+		if err := os.WriteFile(gen, []byte(src), 0644); err != nil {
+			fatal(err)
+		}
+		replace[filepath.Join(shimDir, "zz_passthrough.go")] = gen
+		passthrough[std] = missing
+		fmt.Printf("overlaygen: %s: pass-through (not instrumented) for %v\n", std, missing)
+	}
+	pj, _ := json.Marshal(passthrough)
+	os.WriteFile(filepath.Join(*out, "passthrough.json"), pj, 0644)
 	j, _ := json.MarshalIndent(map[string]interface{}{"Replace": replace}, "", " ")
 	if err := os.WriteFile(filepath.Join(*out, "overlay.json"), j, 0644); err != nil {
 		fatal(err)
@@ -107,6 +142,9 @@ func fatal(err error) {
 	os.Exit(1)
 }
 
+// used[std package] = identifiers the repository selects from it
+var used = map[string]map[string]bool{}
+
 func rewriteFile(src, dst string) (bool, error) {
 	fset := token.NewFileSet()
 	f, err := parser.ParseFile(fset, src, nil, parser.ParseComments)
@@ -114,6 +152,7 @@ func rewriteFile(src, dst string) (bool, error) {
 		return false, err
 	}
 	changed := false
+	local := map[string]string{} // local name -> std package
 	for _, imp := range f.Imports {
 		p, _ := strconv.Unquote(imp.Path.Value)
 		r, ok := rewrite[p]
@@ -123,9 +162,23 @@ func rewriteFile(src, dst string) (bool, error) {
 		if imp.Name == nil {
 			imp.Name = ast.NewIdent(r.name)
 		}
+		local[imp.Name.Name] = p
 		imp.Path.Value = strconv.Quote(r.path)
 		changed = true
 	}
+	ast.Inspect(f, func(n ast.Node) bool {
+		if se, ok := n.(*ast.SelectorExpr); ok {
+			if id, ok := se.X.(*ast.Ident); ok && id.Obj == nil {
+				if std, ok := local[id.Name]; ok {
+					if used[std] == nil {
+						used[std] = map[string]bool{}
+					}
+					used[std][se.Sel.Name] = true
+				}
+			}
+		}
+		return true
+	})
 	if !changed {
 		return false, nil
 	}
@@ -145,4 +198,65 @@ func rewriteFile(src, dst string) (bool, error) {
 		return false, err
 	}
 	return true, nil
+}
+
+func exportedNames(dir string) map[string]bool {
+	out := map[string]bool{}
+	fset := token.NewFileSet()
+	pkgs, err := parser.ParseDir(fset, dir, nil, 0)
+	if err != nil {
+		return out
+	}
+	for _, p := range pkgs {
+		for _, f := range p.Files {
+			for _, d := range f.Decls {
+				switch x := d.(type) {
+				case *ast.FuncDecl:
+					if x.Recv == nil {
+						out[x.Name.Name] = true
+					}
+				case *ast.GenDecl:
+					for _, sp := range x.Specs {
+						switch y := sp.(type) {
+						case *ast.TypeSpec:
+							out[y.Name.Name] = true
+						case *ast.ValueSpec:
+							for _, n := range y.Names {
+								out[n.Name] = true
+							}
+						}
+					}
+				}
+			}
+		}
+	}
+	return out
+}
+
+// passthroughFile declares each missing identifier as an alias of the real one.
+func passthroughFile(pkg, std string, names []string) (string, bool) {
+	imp, err := importer.ForCompiler(token.NewFileSet(), "source", nil).Import(std)
+	if err != nil {
+		fmt.Fprintln(os.Stderr, "overlaygen: cannot inspect", std, err)
+		return "", false
+	}
+	var sb strings.Builder
+	fmt.Fprintf(&sb, "// Code generated by overlaygen. Pass-through for identifiers the shim does not model.\npackage %s\n\nimport real %q\n\n", pkg, std)
+	n := 0
+	for _, name := range names {
+		obj := imp.Scope().Lookup(name)
+		if obj == nil {
+			continue // not an identifier of the real package either: let the compiler complain
+		}
+		switch obj.(type) {
+		case *types.TypeName:
+			fmt.Fprintf(&sb, "type %s = real.%s\n", name, name)
+		case *types.Const:
+			fmt.Fprintf(&sb, "const %s = real.%s\n", name, name)
+		default:
+			fmt.Fprintf(&sb, "var %s = real.%s\n", name, name)
+		}
+		n++
+	}
+	return sb.String(), n > 0
 }
